@@ -501,7 +501,7 @@ func convertValueDepth(v reflect.Value, typ reflect.Type, depth int, memo map[co
 	case (kind == reflect.String || kind == reflect.Bool) && v.Kind() == kind:
 		// a named string or bool type
 		return v.Convert(typ), nil
-	case kind == reflect.Slice && v.Kind() == reflect.Slice && typ.Elem().Kind() != reflect.Uint8:
+	case kind == reflect.Slice && v.Kind() == reflect.Slice && (typ.Elem().Kind() != reflect.Uint8 || !v.Type().AssignableTo(typ)):
 		key := convertKey{v.Pointer(), v.Len(), typ}
 		if cv, ok := memo[key]; ok && v.Len() > 0 {
 			return cv, nil
@@ -668,9 +668,15 @@ func SetSlice(dest reflect.Value, objects interface{}) error {
 	destTyp := UnpackPtrType(dest.Type())
 	elemKind := destTyp.Elem().Kind()
 	if elemKind == reflect.Uint8 {
-		// for binary
-		dest.Set(EnsureRawValue(objects))
-		return nil
+		// for binary; a list of integers for a slice of a named octet type goes the way of every list
+		raw := EnsureRawValue(objects)
+		if !raw.IsValid() {
+			return nil
+		}
+		if raw.Type().AssignableTo(dest.Type()) {
+			dest.Set(raw)
+			return nil
+		}
 	}
 
 	if ref, ok := objects.(*_refHolder); ok {
